@@ -5,8 +5,8 @@ CONSTANTS
   MaxBatch = 3
   MultiNsPrecheck = "all-first"
   RollbackKinds = "all"
-  SchemaListRollback = FALSE
-  DeleteClassUndo = TRUE
+  SchemaListRollback = TRUE
+  DeleteClassUndo = FALSE
   RollbackScope = "repository"
 INVARIANT Atomic
 INVARIANT Completes
